@@ -91,4 +91,15 @@ theorem roundtrip : roundtrip_statement := by
     · left; exact e.symm
     · right; exact e.symm
 
+/-! ### the hypotheses are satisfiable -/
+
+/-- an instant inside the overlap of `zEx`: its civil second is REPEATED and the instant is `post` -/
+example : TableWF zEx ∧ CivilCols zEx ∧ Separated zEx ∧ inI64 2001600 ∧
+    (zEx.extended = false ∨ (2001600 : Int) < timeOf zEx (zEx.transitions.size - 1)) ∧
+    NoShift zEx (breakTime zEx 0 2001600).val.1.cs :=
+  ⟨zEx_wf, zEx_cols, zEx_sep, by decide, Or.inl rfl, Or.inl rfl⟩
+example : (breakTime zEx 0 2001600).val.1.cs = ⟨1970, 1, 24, 4, 0, 0⟩ ∧
+    (Tz.makeTime zEx 3 ⟨1970, 1, 24, 4, 0, 0⟩).val.1 = ⟨.repeated, 1998000, 2000000, 2001600⟩ := by
+  decide +kernel
+
 end Cctz.C03
